@@ -357,11 +357,15 @@ alone … -/
 theorem Threads.seqCst_untouched (s : Threads) :
     (∀ sy o, (s.syncLoad sy o).seqCst = s.seqCst) ∧ (∀ v, (s.setCaus v).seqCst = s.seqCst) ∧
     s.activeCausalityInc.seqCst = s.seqCst ∧ (∀ id, (s.unpark id).seqCst = s.seqCst) ∧
+    (∀ id, (s.wake id).seqCst = s.seqCst) ∧
     (∀ i f, (s.modify i f).seqCst = s.seqCst) ∧ (∀ n, ({ s with active := n }).seqCst = s.seqCst) ∧
     (∀ s' id, s.newThread = .ok (s', id) → s'.seqCst = s.seqCst) := by
-  refine ⟨fun _ _ => rfl, fun _ => rfl, rfl, ?_, fun _ _ => rfl, fun _ => rfl, ?_⟩
+  refine ⟨fun _ _ => rfl, fun _ => rfl, rfl, ?_, ?_, fun _ _ => rfl, fun _ => rfl, ?_⟩
   · intro id
     unfold Threads.unpark
+    split <;> rfl
+  · intro id
+    unfold Threads.wake
     split <;> rfl
   · intro s' id h
     unfold Threads.newThread at h
